@@ -5,7 +5,7 @@ import PtnModel.Proofs.SvdAlg
 
 Named pieces of `BondOps.splitMatrixSvd` (`svdLoopState`, `keptIdx`, `outU`, `outS`, `outV`, `outQn`; the sorted
 input `srt` and the list `blocks` of matrices handed to the kernel are those of `qr`), the unfolding lemmas
-`split_eq`/`split_eq_empty`, and the entry-wise description of each piece.
+`split_eq`/`split_eq_zero`, and the entry-wise description of each piece.
 -/
 set_option linter.unusedSectionVars false
 
@@ -55,11 +55,26 @@ theorem toArray_getD {α : Type} (l : List α) (i : Nat) (d : α) : l.toArray.ge
   simp [Array.getD, List.getD_eq_getElem?_getD]
   split <;> simp_all
 
-/-- `split_matrix_svd` when the three input assertions pass and there is a shared charge -/
+/-- some in-range entry of `M` is non-zero (`np.any(M)`) -/
+def AnyNZ (M : Mat 𝕜) : Prop := ∃ i j, i < M.m ∧ j < M.n ∧ M.f i j ≠ 0
+
+theorem not_anyNZ_iff (M : Mat 𝕜) : ¬ AnyNZ M ↔ ∀ i j, i < M.m → j < M.n → M.f i j = 0 := by
+  unfold AnyNZ
+  constructor
+  · intro h i j hi hj
+    by_contra hne
+    exact h ⟨i, j, hi, hj, hne⟩
+  · rintro h ⟨i, j, hi, hj, hne⟩
+    exact hne (h i j hi hj)
+
+theorem all_zero_false_iff (M : Mat 𝕜) : (M.all fun x => decide (x = 0)) = false ↔ AnyNZ M := by
+  rw [← Bool.not_eq_true, all_zero_iff, ← not_anyNZ_iff, Classical.not_not]
+
+/-- `split_matrix_svd` when the three input assertions pass, there is a shared charge and the matrix is not zero -/
 theorem split_eq (dsvd : Mat 𝕜 → Mat 𝕜 × List ρ × Mat 𝕜) (dnorm : List ρ → ρ) (dargsort : List ρ → List Nat)
     (A : Mat 𝕜) (q0 q1 : List Int) (tol : ρ)
     (hq0 : q0.length = A.m) (hq1 : q1.length = A.n) (hsp : QN.isSparseMat A q0 q1 = true)
-    (hne : (intersect1d q0 q1).isEmpty = false) :
+    (hne : (intersect1d q0 q1).isEmpty = false) (hnz : (A.all fun x => decide (x = 0)) = false) :
     splitMatrixSvd dsvd dnorm dargsort A q0 q1 tol =
       if (svdLoopState dsvd A q0 q1).D ≤ min (srt A q0 q1).2.2.m (srt A q0 q1).2.2.n then
         .ok (outU dnorm dargsort dsvd A q0 q1 tol, outS dnorm dargsort dsvd A q0 q1 tol,
@@ -69,7 +84,7 @@ theorem split_eq (dsvd : Mat 𝕜 → Mat 𝕜 × List ρ × Mat 𝕜) (dnorm : 
       pyAssert (q0.length == A.m)
       pyAssert (q1.length == A.n)
       pyAssert (QN.isSparseMat A q0 q1)
-      if (intersect1d q0 q1).isEmpty then
+      if (intersect1d q0 q1).isEmpty || (A.all fun x => decide (x = 0)) then
         pyAssert (A.all fun x => decide (x = 0))
         let u : Mat 𝕜 := ⟨A.m, 1, fun i _ => if i = 0 then 1 else 0⟩
         let v : Mat 𝕜 := Mat.zero 1 A.n
@@ -81,21 +96,21 @@ theorem split_eq (dsvd : Mat 𝕜 → Mat 𝕜 × List ρ × Mat 𝕜) (dnorm : 
       return (outU dnorm dargsort dsvd A q0 q1 tol, idx.map fun i => sa.getD i 0,
         outV dnorm dargsort dsvd A q0 q1 tol, idx.map fun i => qa.getD i 0)) := rfl
   rw [key]
-  simp only [hq0, hq1, hsp, hne, beq_self_eq_true, pyAssert, if_true, bind, Except.bind, pure, Except.pure,
-    Bool.false_eq_true, if_false, toArray_getD]
+  simp only [hq0, hq1, hsp, hne, hnz, Bool.or_self, beq_self_eq_true, pyAssert, if_true, bind, Except.bind, pure,
+    Except.pure, Bool.false_eq_true, if_false, toArray_getD]
   by_cases h : (svdLoopState dsvd A q0 q1).D ≤ min (srt A q0 q1).2.2.m (srt A q0 q1).2.2.n
   · simp [h, outS, outQn, spectrum]
   · simp [h]
 
-/-- `split_matrix_svd` when the three input assertions pass and no charge is shared -/
-theorem split_eq_empty (dsvd : Mat 𝕜 → Mat 𝕜 × List ρ × Mat 𝕜) (dnorm : List ρ → ρ) (dargsort : List ρ → List Nat)
+/-- `split_matrix_svd` when the three input assertions pass and the matrix is zero (shared charges or not) -/
+theorem split_eq_zero (dsvd : Mat 𝕜 → Mat 𝕜 × List ρ × Mat 𝕜) (dnorm : List ρ → ρ) (dargsort : List ρ → List Nat)
     (A : Mat 𝕜) (q0 q1 : List Int) (tol : ρ)
     (hq0 : q0.length = A.m) (hq1 : q1.length = A.n) (hsp : QN.isSparseMat A q0 q1 = true)
-    (he : (intersect1d q0 q1).isEmpty = true) (hz : (A.all fun x => decide (x = 0)) = true) :
+    (hz : (A.all fun x => decide (x = 0)) = true) :
     splitMatrixSvd dsvd dnorm dargsort A q0 q1 tol =
       .ok (⟨A.m, 1, fun i _ => if i = 0 then 1 else 0⟩, [0], Mat.zero 1 A.n, q0.take 1) := by
   unfold splitMatrixSvd
-  simp only [hq0, hq1, hsp, he, hz, beq_self_eq_true, pyAssert, if_true, bind, Except.bind, pure, Except.pure]
+  simp only [hq0, hq1, hsp, hz, Bool.or_true, beq_self_eq_true, pyAssert, if_true, bind, Except.bind, pure, Except.pure]
 
 /-! ### contracts at the blocks of the run -/
 
